@@ -137,3 +137,27 @@ def today_of(ctx, model):
     if ctx.today is None:
         return None
     return tuple(model.eval(x, model_completion=True).as_long() for x in ctx.today)
+
+
+def explore_closure(run, budget=5000, time_limit=120.0, interp_cls=Interp, cur_n=0):
+    """all paths of a closure run(I, ctx) -> value; Raise outcomes are returned as the exception object"""
+    out = []
+    work = [[]]
+    t0 = time.time()
+    status = 'ok'
+    while work:
+        dec = work.pop()
+        if len(out) >= budget or time.time() - t0 > time_limit:
+            status = 'budget'
+            break
+        ctx = Ctx(dec, cur_n)
+        ctx.long_bound = LONG_BOUND
+        I = interp_cls(ctx)
+        try:
+            out.append((ctx, run(I, ctx)))
+        except Raise as r:
+            out.append((ctx, r))
+        except Infeasible:
+            pass
+        work.extend(ctx.new)
+    return out, status
